@@ -51,6 +51,7 @@ import (
 func init() {
 	// one "pruning round finished" line per cycle would swamp the shard logs
 	_ = logging.SetLogLevel("pruner/service", "fatal")
+	_ = logging.SetLogLevel("header/store", "fatal") // the real store of the contract check
 }
 
 // Signatures of the violation shapes this harness can tell apart (known-finding mechanism).
@@ -477,8 +478,7 @@ type c14Machine struct {
 	overtaken    map[uint64]struct{} // heights that became the tail while above the checkpoint
 	unordered    map[uint64]struct{} // heights deleted through an unordered advance
 	dropFailed   map[uint64]struct{} // heights deleted while their last prune attempt had failed
-	gapSum       time.Duration
-	gapN         int
+	gaps         []time.Duration
 	oldCap       int
 }
 
@@ -523,8 +523,7 @@ func (m *c14Machine) appendOne(gap time.Duration) {
 	height, ts := m.p.StartH, m.base
 	if head != nil {
 		height, ts = head.Height()+1, head.Time().Add(gap)
-		m.gapSum += gap
-		m.gapN++
+		m.gaps = append(m.gaps, gap)
 	}
 	eh := &header.ExtendedHeader{
 		RawHeader: header.RawHeader{ChainID: "c14", Height: int64(height), Time: ts},
@@ -930,6 +929,13 @@ func (m *c14Machine) checkL() error {
 			continue
 		}
 		if _, ok := live[h]; ok {
+			// recorded as failed: fine if it can no longer be retried (header gone), but a stored
+			// header must have been retried - and, failures being healed, pruned - by now
+			if _, st := stored[h]; st {
+				return &c14Viol{inv: "L", msg: fmt.Sprintf(
+					"height %d is recorded as failed and its header is stored, but none of the cycles after healing pruned it: failed heights are not retried (failed set %v)",
+					h, c14Keys(live))}
+			}
 			continue
 		}
 		missing = append(missing, h)
@@ -1154,10 +1160,13 @@ func (m *c14Machine) record() {
 	if m.tailAdvances > 0 {
 		labels = append(labels, "tail-advance=yes")
 	}
+	// "actual block time != configured estimate": the median gap is off by more than 20 %
 	off := false
-	if m.gapN > 0 {
-		mean := float64(m.gapSum) / float64(m.gapN)
-		off = mean < 0.9*float64(m.p.BlockTime) || mean > 1.1*float64(m.p.BlockTime)
+	if len(m.gaps) > 0 {
+		g := append([]time.Duration(nil), m.gaps...)
+		sort.Slice(g, func(i, j int) bool { return g[i] < g[j] })
+		med := float64(g[len(g)/2])
+		off = med < 0.8*float64(m.p.BlockTime) || med > 1.2*float64(m.p.BlockTime)
 	}
 	if off {
 		labels = append(labels, "blocktime=off-estimate")
